@@ -399,6 +399,65 @@ fn check_encoded_kind(e: &DynError, err: &Error, id: Option<Uuid>, r: &mut Repor
     }
 }
 
+/// error types that occupy no memory but still have scalar parameters (a field whose type has
+/// one value: a one-value enum, a marker that serializes as a string), by value and by reference
+fn zero_sized(r: &mut Report) {
+    #[derive(Clone)]
+    struct Phase;
+    impl Serialize for Phase {
+        fn serialize<S: serde::Serializer>(&self, s: S) -> Result<S::Ok, S::Error> {
+            s.serialize_str("INIT")
+        }
+    }
+    #[derive(Clone, serde::Serialize)]
+    enum Only {
+        #[serde(rename = "SOLE")]
+        Sole,
+    }
+    #[derive(Clone, serde::Serialize)]
+    struct Zst {
+        phase: Phase,
+        only: Only,
+        unit: (),
+    }
+    impl ErrorType for Zst {
+        fn code(&self) -> ErrorCode {
+            ErrorCode::Conflict
+        }
+        fn name(&self) -> &str {
+            "Verif:ZeroSized"
+        }
+        fn instance_id(&self) -> Option<Uuid> {
+            None
+        }
+        fn safe_args(&self) -> &'static [&'static str] {
+            &["only"]
+        }
+    }
+    assert_eq!(std::mem::size_of::<Zst>(), 0);
+    let e = Zst { phase: Phase, only: Only::Sole, unit: () };
+    let want: BTreeMap<String, String> = [("phase".to_string(), "INIT".to_string()), ("only".to_string(), "SOLE".to_string())].into_iter().collect();
+    r.states += 1;
+    let id = Uuid::from_u128(7);
+    let runs: Vec<(&str, Result<BTreeMap<String, String>, String>)> = vec![
+        ("encode(&e) [T = Zst]", vcommon::catch(|| encode::<Zst>(&e).parameters().clone())),
+        ("encode(&&e) [T = &Zst]", vcommon::catch(|| encode::<&Zst>(&&e).parameters().clone())),
+        ("encode(&&&e) [T = &&Zst]", vcommon::catch(|| encode::<&&Zst>(&&&e).parameters().clone())),
+        ("encode(with_instance_id)", vcommon::catch(|| encode(&e.clone().with_instance_id(id)).parameters().clone())),
+        ("Error::service(by value)", vcommon::catch(|| params_of(&Error::service("cause", e.clone())))),
+        ("Error::service_safe(&e)", vcommon::catch(|| params_of(&Error::service_safe("cause", &e)))),
+    ];
+    for (how, got) in runs {
+        r.evaluations += 1;
+        r.transitions += 1;
+        if got.as_ref().ok() == Some(&want) {
+            r.outcome("zero-sized-error:parameters-encoded");
+        } else {
+            r.violation(format!("C17|zero-sized-error|{}", how), format!("a zero-sized error type with two scalar parameters: {} gives parameters {:?}, expected {:?}", how, got, want), json!({"error": "zero-sized", "via": how}));
+        }
+    }
+}
+
 const NAMES: [&str; 6] = ["a", "b", "c", "d", "e", "f"];
 
 pub fn run(args: &Args) -> Report {
@@ -512,6 +571,7 @@ pub fn run(args: &Args) -> Report {
         let e = DynError { code: c, name: "Verif:Code", fields: vec![], own_id: None };
         check_error(&e, &mut report, true);
     }
+    zero_sized(&mut report);
 
     report.bound("one_parameter_shape_depth", depth);
     report.bound("partition_names", json!(names));
